@@ -39,8 +39,10 @@ MonInit(versions) ==
 
 MK(m) == <<m.proto, m.kind>>
 
-\* finding key: protocol / message kind / emitting hook - responder view at the time
-FindingKey(pr, kind, visitor, st) == pr \o "/" \o kind \o "/" \o visitor \o "-in-" \o st
+\* finding key: protocol / message kind / emitting hook - responder view at the time; "-before-sent" marks the
+\* case that an earlier message of the same protocol is still unconfirmed (the initiator's own state lags)
+FindingKey(pr, kind, visitor, st, lag) ==
+  pr \o "/" \o kind \o "/" \o visitor \o "-in-" \o st \o (IF lag THEN "-before-sent" ELSE "")
 
 \* which hook of the behaviour emitted (third component of the finding key)
 Visitor(evk) == CASE evk = "hk" -> "housekeeping"
@@ -93,7 +95,8 @@ EmitOne(R, evk, o) ==
        ELSE IF ClientMay(pr, st, o.m.kind)
             THEN [R EXCEPT !.M = [M1 EXCEPT !.view[o.p][pr] = SpecNext(pr, st, o.m.kind)]]
             ELSE [M  |-> [M1 EXCEPT !.broken[o.p] = @ \cup {pr}],
-                  nb |-> R.nb \cup {FindingKey(pr, o.m.kind, Visitor(evk), st)}]
+                  nb |-> R.nb \cup {FindingKey(pr, o.m.kind, Visitor(evk), st,
+                                                \E i \in DOMAIN M.unconf[o.p] : M.unconf[o.p][i][1] = pr)}]
   ELSE R
 
 RECURSIVE EmitAll(_, _, _, _)
